@@ -29,42 +29,49 @@ type c14Scenario struct {
 	name           string
 	calls          []c14Call
 	limit, discard int
-	noClient       bool // Remotes built without an explicit Client (as the agent binary dials the pool)
+	noClient       bool   // Remotes built without an explicit Client (as the agent binary dials the pool)
+	ids            string // "" default client; "big": ids beyond 2^53 differing in the low bits; "string"
+}
+
+func c14Mk(specs ...string) []c14Call {
+	var cs []c14Call
+	for i, s := range specs {
+		f := strings.Split(s, ":")
+		cs = append(cs, c14Call{from: f[0], kind: f[1], token: fmt.Sprintf("tok%d", i)})
+	}
+	return cs
 }
 
 func c14Scenarios() []c14Scenario {
-	mk := func(specs ...string) []c14Call {
-		var cs []c14Call
-		for i, s := range specs {
-			f := strings.Split(s, ":")
-			cs = append(cs, c14Call{from: f[0], kind: f[1], token: fmt.Sprintf("tok%d", i)})
-		}
-		return cs
-	}
+	mk := c14Mk
 	return []c14Scenario{
-		{"two-callers-one-side", mk("a:echo", "a:echo"), 0, 0, false},
-		{"three-callers-one-side", mk("a:echo", "a:echo", "a:echo"), 0, 0, false},
-		{"callers-on-both-sides", mk("a:echo", "b:echo"), 0, 0, false},
-		{"both-sides-two-each", mk("a:echo", "b:echo", "a:echo"), 0, 0, false},
-		{"nested-depth1-plus-echo", mk("a:nest1", "a:echo"), 0, 0, false},
-		{"nested-depth2", mk("a:nest2", "b:echo"), 0, 0, false},
-		{"nested-depth3", mk("a:nest3"), 0, 0, false},
-		{"nested-both-directions", mk("a:nest1", "b:nest1"), 0, 0, false},
-		{"cancel-one-of-two", mk("a:cancel", "a:echo"), 0, 0, false},
-		{"cancel-vs-other-side", mk("a:cancel", "b:echo"), 0, 0, false},
-		{"cancel-alone", mk("a:cancel"), 0, 0, false},
+		{"two-callers-one-side", mk("a:echo", "a:echo"), 0, 0, false, ""},
+		{"three-callers-one-side", mk("a:echo", "a:echo", "a:echo"), 0, 0, false, ""},
+		{"callers-on-both-sides", mk("a:echo", "b:echo"), 0, 0, false, ""},
+		{"both-sides-two-each", mk("a:echo", "b:echo", "a:echo"), 0, 0, false, ""},
+		{"nested-depth1-plus-echo", mk("a:nest1", "a:echo"), 0, 0, false, ""},
+		{"nested-depth2", mk("a:nest2", "b:echo"), 0, 0, false, ""},
+		{"nested-depth3", mk("a:nest3"), 0, 0, false, ""},
+		{"nested-both-directions", mk("a:nest1", "b:nest1"), 0, 0, false, ""},
+		{"cancel-one-of-two", mk("a:cancel", "a:echo"), 0, 0, false, ""},
+		{"cancel-vs-other-side", mk("a:cancel", "b:echo"), 0, 0, false, ""},
+		{"cancel-alone", mk("a:cancel"), 0, 0, false, ""},
 		// the same with connections built the way the binaries build them (no explicit Client)
-		{"two-callers-one-side/no-explicit-client", mk("a:echo", "a:echo"), 0, 0, true},
-		{"callers-on-both-sides/no-explicit-client", mk("a:echo", "b:echo"), 0, 0, true},
-		{"cancel-one-of-two/no-explicit-client", mk("a:cancel", "a:echo"), 0, 0, true},
-		{"nested-depth1-plus-echo/no-explicit-client", mk("a:nest1", "a:echo"), 0, 0, true},
+		{"two-callers-one-side/no-explicit-client", mk("a:echo", "a:echo"), 0, 0, true, ""},
+		{"callers-on-both-sides/no-explicit-client", mk("a:echo", "b:echo"), 0, 0, true, ""},
+		{"cancel-one-of-two/no-explicit-client", mk("a:cancel", "a:echo"), 0, 0, true, ""},
+		{"nested-depth1-plus-echo/no-explicit-client", mk("a:nest1", "a:echo"), 0, 0, true, ""},
 		// a call of an unregistered name among the others: answered with an error, nothing else disturbed
-		{"unknown-method-plus-echo", mk("a:unknown", "a:echo"), 0, 0, false},
-		{"unknown-method-both-sides", mk("a:unknown", "b:echo", "b:unknown"), 0, 0, false},
-		{"unknown-method-twice", mk("a:unknown", "a:unknown"), 0, 0, false},
+		{"unknown-method-plus-echo", mk("a:unknown", "a:echo"), 0, 0, false, ""},
+		{"unknown-method-both-sides", mk("a:unknown", "b:echo", "b:unknown"), 0, 0, false, ""},
+		{"unknown-method-twice", mk("a:unknown", "a:unknown"), 0, 0, false, ""},
+		// request ids other than small integers
+		{name: "two-callers-one-side/big-ids", calls: mk("a:echo", "a:echo"), ids: "big"},
+		{name: "callers-on-both-sides/big-ids", calls: mk("a:echo", "b:echo", "a:echo"), ids: "big"},
+		{name: "nested-depth1-plus-echo/string-ids", calls: mk("a:nest1", "a:echo"), ids: "string"},
 		// a handler that forwards the request, with its context, to an in-memory service
-		{"relay-to-local-service", mk("a:relay", "b:echo"), 0, 0, false},
-		{"relay-both-directions", mk("a:relay", "b:relay"), 0, 0, false},
+		{"relay-to-local-service", mk("a:relay", "b:echo"), 0, 0, false, ""},
+		{"relay-both-directions", mk("a:relay", "b:relay"), 0, 0, false, ""},
 	}
 }
 
@@ -74,6 +81,9 @@ func c14Unit(sc c14Scenario, bound int) vh.Unit {
 	var calls []c14Call
 	body := func() {
 		w = vh.NewRPCWorldOpt(sc.limit, sc.discard, !sc.noClient)
+		if sc.ids != "" {
+			w.A.Client, w.B.Client = &vh.IDClient{Kind: sc.ids}, &vh.IDClient{Kind: sc.ids}
+		}
 		w.Start()
 		calls = append([]c14Call{}, sc.calls...)
 		var fns []func()
@@ -289,6 +299,17 @@ func init() {
 				pb = 3
 			}
 			us = append(us, c14PendingLimit(pb), c14Local())
+			// many requests in flight at once, each of whose handlers calls back over the same
+			// connection (width instead of interleavings: schedules with at most one deviation)
+			var wide []string
+			for i := 0; i < 40; i++ {
+				wide = append(wide, "a:nest1")
+			}
+			wb := 0
+			if tier == "thorough" {
+				wb = 1
+			}
+			us = append(us, c14Unit(c14Scenario{name: "forty-nested-callers", calls: c14Mk(wide...)}, wb))
 			return us
 		},
 	})
